@@ -48,6 +48,8 @@ def run(db, rep, tier):
         rep.analysis_broken("expected >= 17 matches_response overrides, found %d" % n_over)
     nf, nob = _bounds.run_functions(db, rep, "R1-bounds", fs)
     rep.extra["functions_analysed"] = nf
+    rep.rule("R3-icmp-pairs", "ICMP / ICMPv6 queries: the matching reply type with equal identifier and sequence number is accepted, a differing "
+                              "identifier or sequence number is not, and no other (request type, reply type) combination is", 5)
     rep.rule("R2-address-table", "IPv4: a reply from the mirrored addresses can match; one not addressed to us (or, for unicast requests, "
                                  "not coming from the requested host) never matches", 3)
     r2(db, rep)
@@ -61,6 +63,7 @@ def run(db, rep, tier):
 
 
 def r2(db, rep):
+    r3(db, rep)
     from vlib import formula
     fs = db.fns_named("Tins::IP::matches_response")
     if not fs:
@@ -125,3 +128,137 @@ def r2(db, rep):
             rep.violation("R2-address-table", key, facts.loc(f, node), bad[k])
         else:
             rep.ok("R2-address-table", key, facts.loc(f, node), "%s (truth table over %s)" % (what, sorted(set(role.values()))))
+
+
+R3_TARGETS = (
+    # function, enum, stems the property names (echo / timestamp / address-mask queries)
+    ("Tins::ICMP::matches_response", "Tins::ICMP::Flags", ("ECHO", "TIMESTAMP", "ADDRESS_MASK")),
+    ("Tins::ICMPv6::matches_response", "Tins::ICMPv6::Types", ("ECHO",)),
+)
+R3_SUFFIXES = (("_REQUEST", "_REPLY"), ("_SOLICIT", "_ADVERT"), ("_QUERY", "_REPORT"))
+
+
+def r3(db, rep):
+    """ICMP / ICMPv6 query matching: finite evaluation of matches_response over
+    (request type, reply type) in enum values x enum values (plus every constant
+    the body compares with and one value outside), with the remaining equality
+    comparisons as boolean inputs.  The body only compares, so this is exhaustive."""
+    from vlib import ieval
+    for fname, ename, stems in R3_TARGETS:
+        short = fname.split("::")[1]
+        fs = db.fns_named(fname)
+        en = db.enums.get(ename)
+        if not fs or en is None:
+            rep.analysis_broken("%s or %s vanished" % (fname, ename))
+            continue
+        f = fs[0]
+        names = dict((x["name"], x["v"]) for x in en["enumerators"])
+        byval = {}
+        for n, v in names.items():
+            byval.setdefault(v, []).append(n)
+        pairs = {}
+        for n, v in names.items():
+            for a, b in R3_SUFFIXES:
+                if n.endswith(a) and n[:-len(a)] + b in names:
+                    pairs[(v, names[n[:-len(a)] + b])] = n[:-len(a)]
+        required = dict((pr, st) for pr, st in pairs.items() if st in stems)
+        if len(required) != len(stems):
+            rep.analysis_broken("%s: request/reply enumerators for %s not found" % (ename, stems))
+            continue
+        dom = set(names.values())
+        for n in facts.fn_nodes(f):
+            v = facts.cval(n)
+            if v is not None and 0 <= int(v) < 256:
+                dom.add(int(v))
+        dom.add(max(x for x in range(256) if x not in dom))
+        total = [p for p in f["params"] if p["name"] == "total_sz"]
+        if not total:
+            rep.analysis_broken("%s: parameter total_sz not found" % fname)
+            continue
+
+        def is_type_ref(n):
+            """'req' / 'rep' when n reads the ICMP type of the request (this) / of the buffer"""
+            n0 = n
+            if n0["k"] == "CXXMemberCallExpr" and n0.get("cname") == "type" and len(n0["c"]) == 1:
+                g = db.fn(n0.get("callee"))
+                obj = facts.strip_all(n0["c"][0]["c"][0]) if n0["c"][0].get("c") else None
+                if g is not None and obj is not None and obj["k"] == "CXXThisExpr":
+                    rets = [x for x in facts.fn_nodes(g) if x["k"] == "ReturnStmt"]
+                    if len(rets) == 1 and any(y["k"] == "MemberExpr" and y.get("member") == "type" for y in facts.walk(rets[0])):
+                        return "req"
+                return None
+            if n0["k"] == "MemberExpr" and n0.get("isfield") and n0.get("member") == "type":
+                b = n0
+                while b.get("c") and b["k"] in ("MemberExpr", "ImplicitCastExpr", "ParenExpr"):
+                    b = b["c"][0]
+                if b["k"] == "CXXThisExpr":
+                    return "req"
+                if b["k"] == "DeclRefExpr":
+                    return "rep"
+            return None
+
+        def mentions_type(n):
+            return any(is_type_ref(x) for x in facts.walk(n))
+
+        def evaluate(q, p, flip=None):
+            seen = []
+
+            def tf(n):
+                if n["k"] == "DeclRefExpr" and n.get("var") == total[0]["var"]:
+                    return 4096
+                r = is_type_ref(n)
+                if r == "req":
+                    return q
+                if r == "rep":
+                    return p
+                if n["k"] == "BinaryOperator" and n.get("op") in ("==", "!=") and not mentions_type(n):
+                    t = facts.expr_str(n)
+                    if t not in seen:
+                        seen.append(t)
+                    eq = 0 if t == flip else 1
+                    return eq if n["op"] == "==" else 1 - eq
+                return None
+            v = ieval.run_body(f, f["body"], {"__termfn__": tf, "__db__": db})
+            return v, seen
+        site = facts.loc(f)
+        try:
+            accepted = {}
+            for q in sorted(dom):
+                for p in sorted(dom):
+                    v, seen = evaluate(q, p)
+                    if v:
+                        accepted[(q, p)] = seen
+            nm = lambda v: "/".join(byval.get(v, [str(v)]))
+            for (q, p), st in sorted(required.items()):
+                key = "%s:pair:%s" % (short, st)
+                if (q, p) not in accepted:
+                    rep.violation("R3-icmp-pairs", key, site,
+                                  "a %s (type %d) carrying the request's identifier and sequence number is not recognised as the "
+                                  "response to a %s (type %d)" % (nm(p), p, nm(q), q))
+                    continue
+                atoms = accepted[(q, p)]
+                leaks = []
+                for a in atoms:
+                    v, _ = evaluate(q, p, flip=a)
+                    if v:
+                        leaks.append(a)
+                fields = " ".join(atoms)
+                if leaks:
+                    rep.violation("R3-icmp-pairs", key, site, "the reply is accepted although `%s` is false" % leaks[0])
+                elif "id" not in fields or "seq" not in fields:
+                    rep.violation("R3-icmp-pairs", key, site, "identifier and sequence number are not both compared for %s (comparisons made: %s)"
+                                  % (nm(q), atoms))
+                else:
+                    rep.ok("R3-icmp-pairs", key, site, "%s -> %s accepted iff %s" % (nm(q), nm(p), " and ".join(atoms)))
+            strangers = [(q, p) for (q, p) in sorted(accepted) if (q, p) not in pairs]
+            key = "%s:strangers" % short
+            if strangers:
+                q, p = strangers[0]
+                rep.violation("R3-icmp-pairs", key, site,
+                              "a packet of type %s (%d) is accepted as the response to a request of type %s (%d): not a request/reply pair of %s "
+                              "(%d such pair(s))" % (nm(p), p, nm(q), q, ename, len(strangers)))
+            else:
+                rep.ok("R3-icmp-pairs", key, site, "accepted (request, reply) type pairs %s are all request/reply pairs of %s; %d x %d values evaluated"
+                       % (sorted(accepted), ename, len(dom), len(dom)))
+        except ieval.Unknown as e:
+            rep.analysis_broken("%s: body outside the finite evaluator: %s" % (fname, e))
